@@ -11,3 +11,17 @@ Inductive cookie_seg :=
 | SegNameValue (sep : list N)                                        (* write!(f, "{}<sep>{}", name, value) *)
 | SegIf (g : cookie_guard) (lit : list N) (a : cookie_arg)            (* if g { write!(f, "<lit>{}", a) } *)
 | SegSameSite (strict lax none : list N).                            (* match self.same_site { .. => write!(f, lit) } *)
+
+(* read_http_request (src/request.rs): the two decision tables *)
+(* match (iter.next(), iter.next(), iter.next()) { (Some("gzip"), Some("chunked"), None) => (true, true), ... } *)
+Definition te_arm := (option (list N) * option (list N) * option (list N) * (bool * bool))%type.
+(* match (chunked, &content_length, head.method.as_str()) { ... } *)
+Inductive clen_pat := CLAny | CLSomeLit (n : N) | CLSomeVar | CLNone.
+Inductive body_guard := BGNone | BGExpectOrGzip.
+Inductive body_result := BREmpty | BRUnknown | BRKnownVar.
+Record body_arm := mk_body_arm {
+  ba_chunked : option bool;            (* None = `_` *)
+  ba_clen : clen_pat;
+  ba_methods : option (list (list N)); (* None = `_`; Some [..] = "POST" | "PUT" *)
+  ba_guard : body_guard;
+  ba_result : body_result }.
